@@ -361,16 +361,16 @@ func (w *world) directed(sc *scenario, which int) []op {
 const nMutations = 9
 
 // mutatedGenesis takes the real export of the current state, perturbs one field, calls the
-// real GenesisState.Validate and - when it passes - the real InitGenesis on an emptied store
-// of a discarded branch.  Returns the Coq term of the perturbed genesis state and both verdicts.
-func (w *world) mutatedGenesis(kind, sel int, mark func(string)) (term string, valid bool, cls Class) {
+// real GenesisState.Validate and - whether it passes or not - the real InitGenesis on an emptied
+// store of a discarded branch.  Returns the Coq term of the perturbed genesis state and both verdicts.
+func (w *world) mutatedGenesis(kind, sel int, mark func(string)) (term string, valid bool, cls Class, name string) {
 	bctx, _ := w.ctx.CacheContext()
 	gs := pricefeed.ExportGenesis(bctx, w.pk)
 	gs.PostedPrices = append(pftypes.PostedPrices(nil), gs.PostedPrices...)
 	ms := append(pftypes.Markets(nil), gs.Params.Markets...)
 	gs.Params.Markets = ms
 	np := len(gs.PostedPrices)
-	name := "none"
+	name = "none"
 	switch kind {
 	case 0: // duplicated post
 		if np > 0 {
@@ -434,17 +434,21 @@ func (w *world) mutatedGenesis(kind, sel int, mark func(string)) (term string, v
 	term = coqGenesis(w, gs)
 	valid = gs.Validate() == nil
 	mark("pricefeed/mutgen:" + name + fmt.Sprintf(":valid=%v", valid))
+	// the real InitGenesis runs on EVERY perturbed genesis, also those Validate refuses (scratch branch,
+	// never written back, panics recovered): InitGenesis is the only gate at chain start
+	cls, _ = Atomically(w.ctx, func(ctx sdk.Context) error {
+		c2, _ := ctx.CacheContext() // never written back
+		WipeStore(c2, w.tApp.GetKVStoreKey(pftypes.StoreKey))
+		wipeParams(c2, w, pftypes.ModuleName)
+		pricefeed.InitGenesis(c2, w.pk, gs)
+		return nil
+	})
 	if valid {
-		cls, _ = Atomically(w.ctx, func(ctx sdk.Context) error {
-			c2, _ := ctx.CacheContext() // never written back
-			WipeStore(c2, w.tApp.GetKVStoreKey(pftypes.StoreKey))
-			wipeParams(c2, w, pftypes.ModuleName)
-			pricefeed.InitGenesis(c2, w.pk, gs)
-			return nil
-		})
 		mark("pricefeed/mutgen:init:" + cls.String())
+	} else {
+		mark("pricefeed/mutgen:invalid:" + name + ":init:" + cls.String())
 	}
-	return term, valid, cls
+	return term, valid, cls, name
 }
 
 // GenesisRun executes generated (ops == nil) or explicit operations on a fresh C18 world.
@@ -516,10 +520,23 @@ func GenesisRun(seed uint64, idx, n int, ops []op, explicit bool, cnt *Counters)
 		}
 		done = append(done, o)
 		if o.Kind == "mutgen" {
-			term, valid, cls := w.mutatedGenesis(o.M, o.O, mark)
-			v, c := int64(0), int64(-1)
+			term, valid, cls, name := w.mutatedGenesis(o.M, o.O, mark)
+			v, c := int64(0), int64(cls)
 			if valid {
-				v, c = 1, int64(cls)
+				v = 1
+			}
+			if !valid && cls != ClassPanic {
+				// x/pricefeed's InitGenesis does not call GenesisState.Validate (the only module of the two
+				// components whose InitGenesis does not): a refused post list (negative price, duplicate
+				// (market, oracle), zero expiry) is imported on the unchanged code; refused params panic in
+				// SetParams.  Not a statement of the property (a refused genesis is not an export of a reachable
+				// state): counted, no monitor; the tie is the comparison with GenesisPricefeed.init_genesis,
+				// which states exactly what is refused, so a change that adds or removes a check shows as a divergence.
+				mark("pricefeed/mutgen:invalid-genesis-imported:" + name)
+				if (name == "duplicate-market" || name == "duplicate-oracle") && out.Fail == nil {
+					out.Fail = &Failure{Step: i, Predicate: "invalid-genesis-imported:pricefeed:" + name, Signature: "invalid-genesis-imported:pricefeed:" + name,
+						Detail: fmt.Sprintf("the parameters of this genesis state are refused by Validate (perturbation %s of a real export) but InitGenesis on an emptied store imports it: %s", name, term)}
+				}
 			}
 			steps = append(steps, fmt.Sprintf("(GProbe %s,\n    ObsStep (%s))", term, coqObs(ClassOk, []int64{v, c}, prev, prev)))
 			continue
